@@ -643,6 +643,7 @@ func init() {
 		Assumptions: []string{
 			"reference rules are those of the statement; map==map, ordering of booleans/arrays/maps, and 'contains' on a scalar or with a non-string needle on a string are left unspecified (coherence laws and never-fails still checked)",
 			"operands are compared through {% if a OP b %} with a and b bound as variables",
+			"NaN is not among the numbers (it has no numeric value to compare by; IEEE makes it unequal to itself)",
 		},
 		Setup:    func(string) { c09.eng = liquid.NewEngine() },
 		Families: c09Families,
